@@ -119,6 +119,7 @@ def crash_violation(res, e, prop, payload):
 
 
 _G = {}
+STATELESS_CMDS = ('ser', 'num')
 
 
 def _worker_init(prop, tier, seed, case_fn_name, module_name, counter):
@@ -138,7 +139,23 @@ def _worker_run(idx):
     try:
         _G['fn'](ctx, idx, res)
     except DriverDied as e:
-        crash_violation(res, e, ctx.prop, {'case': idx, 'request': _brief(e.request)})
+        if e.timeout and (e.request or {}).get('cmd') in STATELESS_CMDS:
+            # a time-out is inconclusive; the same stateless request is re-run once in a fresh process with four
+            # times the budget, and only a second time-out is reported (as a hang, through the usual key matching)
+            try:
+                flavour = getattr(e, 'flavour', None) or 'plain'
+                d = ctx.drv(flavour)
+                d.call(_timeout=4 * d.timeout, **e.request)
+                res.inconclusive.append('timeout-not-reproduced')
+            except DriverDied as e2:
+                if e2.timeout:
+                    rq = _brief(e.request)
+                    res.viol('hang|%s|%s' % (rq.get('cmd'), '|'.join(str(rq.get(k)) for k in ('which', 'enc', 'ver') if k in rq)),
+                             'the request does not return within %d s, twice (fresh process the second time)' % int(4 * d.timeout), {'case': idx, 'request': rq})
+                else:
+                    crash_violation(res, e2, ctx.prop, {'case': idx, 'request': _brief(e2.request)})
+        else:
+            crash_violation(res, e, ctx.prop, {'case': idx, 'request': _brief(e.request)})
     except Exception:
         res.inconclusive.append('harness-exception: ' + traceback.format_exc()[-1500:])
     sig = res.sigs if res.sigs is not None else res.sig
@@ -295,8 +312,12 @@ class Check(object):
         except Exception as ex:
             print('HARNESS-FAILURE: cannot write evidence: %s' % ex)
             sys.exit(2)
+        printed = {}
         for key, e in sorted(self.known.items()):
-            print('KNOWN-FINDING: property=%s %s' % (self.prop, e.get('what', key)))
+            printed.setdefault(id(e), [e, []])[1].append(key)
+        for e, keys in printed.values():
+            more = ' [%d violation keys match this entry, e.g. %s]' % (len(keys), keys[0]) if len(keys) > 1 else ''
+            print('KNOWN-FINDING: property=%s %s%s' % (self.prop, e.get('what', keys[0]), more))
         for key, (what, rp) in sorted(self.violations.items()):
             print('VIOLATION property=%s replay=%s' % (self.prop, rp))
             print('  what: %s' % what[:600])
